@@ -24,7 +24,7 @@ def _key(kind, which):
     if kind.startswith("oct"):
         return A.oct_jwk(int(kind[3:]), "hash", which)
     if kind == "rsa":
-        return A.rsa_jwk(["rsa_2048_a", "rsa_2048_b", "rsa_1024_a"][which])
+        return A.rsa_jwk(["rsa_2048_a", "rsa_2048_b", "rsa_3072_a", "rsa_2048_e3", "rsa_4096_a"][which % 5])
     if kind == "rsa1024":
         return A.rsa_jwk("rsa_1024_a")
     if kind in A.EC_CURVES:
